@@ -147,6 +147,13 @@ def fold(expr, ctx, depth=0):
         base = repo.resolve_expr_static(ctx.module, expr.value)
         if isinstance(base, ClassInfo) and base.is_enum():
             raise Unfoldable('no such enum member %s' % ast.unparse(expr))
+        if expr.attr == 'name':
+            try:
+                bv = fold(expr.value, ctx, depth + 1)
+            except Unfoldable:
+                bv = None
+            if isinstance(bv, EnumVal):
+                return bv.member
         # self.X / cls.X inside a class
         if isinstance(expr.value, ast.Name) and expr.value.id in ('self', 'cls') \
                 and ctx.cls is not None:
